@@ -253,3 +253,17 @@ Proof.
   intros k. rewrite !lookup_apply_writes; auto using sorted_apply_writes, sorted_copy_into.
   rewrite lookup_copy_into by auto. destruct (lookup k w1); reflexivity.
 Qed.
+
+(* ---- remove_all (SeekGC deletions) ---- *)
+Lemma sorted_remove_all {A} ks : forall (m : list (key * A)), sorted false m -> sorted false (remove_all ks m).
+Proof.
+  unfold remove_all. induction ks as [|k ks IH]; simpl; auto. intros m S. apply IH. now apply sorted_remove.
+Qed.
+
+Lemma lookup_remove_all {A} k ks : forall (m : list (key * A)), sorted false m ->
+  lookup k (remove_all ks m) = if existsb (beq k) ks then None else lookup k m.
+Proof.
+  unfold remove_all. induction ks as [|k1 ks IH]; simpl; auto. intros m S.
+  rewrite IH by now apply sorted_remove. rewrite lookup_remove by auto.
+  destruct (beq k k1); simpl; auto. now destruct (existsb (beq k) ks).
+Qed.
